@@ -1,9 +1,9 @@
 """C20 — journaling observes without interfering and always restores the classes (DESIGN.md 5/C20).
 
 Model: lean/IrVerif/Model/Journal.lean (class method table, Journal.__enter__ with its re-entry guard,
-__exit__, the four wrapper factories including the point where `details` is evaluated, nested
-journals, an abstract semantics of instrumented operations that call each other through the table).
-Theorems: lean/IrVerif/Props/C20.lean.
+__exit__, the four wrapper factories: details evaluated / original called / entry recorded in the
+order of the code, nested journals, an abstract semantics of instrumented operations that call each
+other through the table).  Theorems: lean/IrVerif/Props/C20.lean (restore, transparent, entries).
 
 What this file does on every run
 * correspondence (model vs /repo):
@@ -16,31 +16,37 @@ What this file does on every run
     step;
   - `journal.run`: random public-API histories inside 0-3 nested journals with `try` blocks and
     exceptions.  The call tree of the *original* functions is observed with `sys.monitoring`
-    (independent of the wrappers) and given to the model as the script of what the originals do;
-    the model then predicts: outcome of every operation, the exception leaving the history, the
-    order in which the originals execute relative to enter/exit, every journal's entries
-    (operation + object), final table / current journal / active flags.  Compared with the real
-    journaled run;
-  - `bad-repr`: histories in which a user object's repr raises, so that a wrapper's `details`
-    expression raises: the model, told which details expressions raise (found by evaluating the
-    real details lambdas in an un-journaled probing run), must predict the real journaled run.
+    (independent of the wrappers) in the UN-journaled run and given to the model as the script of
+    what the originals do; the model then predicts, for the journaled run: outcome of every
+    operation, the exception leaving the history, the order in which the originals execute relative
+    to enter/exit, every journal's entries (operation + object), final table / current journal /
+    active flags.  Compared with the real journaled run.  (Histories with a refused re-entry take
+    another path than their un-journaled twin: there the journaled run's own tree is the script.)
+  - `odd-repr`: histories in which a user object's repr raises or has a side effect, so that a
+    wrapper's `details` expression raises / has an effect: the model, told which details
+    expressions do that (found by evaluating the real details lambdas in an un-journaled probing
+    run), must predict the real journaled run.
 * oracle (the property itself on the real objects, independent of the model):
-  - transparent: un-journaled vs journaled run of the same history: results, exception types,
-    executed originals (call trees), complete IR snapshots;
-  - DetailsOk: no details expression raises on any state reached by the history;
-  - entries: each journal's entries = the calls that executed while it was entered (methods and
-    setters when called, constructors when they return), in order, right class name, weak ref
-    to the right object;
+  - transparent: un-journaled vs journaled run of the same history: results, exception types and
+    texts (ids masked), executed originals (call trees), complete IR snapshots;
+  - DetailsOk / DetailsPure: no details expression raises, takes an element from a one-shot iterable
+    argument (every operation taking an iterable is also called with one) or changes the IR;
+  - entries: each journal's entries = the operations that completed while it was entered, in order
+    of completion, nothing for an operation that raised; right class name, weak ref to the right
+    object; the fields of an entry hold no IR instance (float, class, str, FrameSummary w/o locals);
   - restore: after every `with` exit (normal or by exception) every patched attribute is the
     object it was before the `with` (function identity; fget/fset/fdel/doc for properties; no
     attribute added to or removed from any class), `get_current_journal()` is back;
   - no strong reference: with all journals' entries alive, dropping the IR objects lets every one
     of them die (gc + weakref); a journal receives no entry after it was left.
+* coverage floor: two deterministic histories call all 43 instrumented operations inside journals;
+  the run fails (exit 2) if any slot was exercised fewer than FLOOR times.
 """
 from __future__ import annotations
 
 import gc
 import json
+import re
 import sys
 import weakref
 import zlib
@@ -71,25 +77,39 @@ THEOREMS = [
     "IrVerif.Journal.C20_transparent",
     "IrVerif.Journal.C20_transparent_from_start",
     "IrVerif.Journal.C20_transparent_needs_DetailsOk",
+    "IrVerif.Journal.C20_transparent_needs_DetailsPure",
     "IrVerif.Journal.C20_transparent_needs_NoReentry",
-    "IrVerif.Journal.C20_transparent_needs_InitNone",
+    "IrVerif.Journal.C20_transparent_needs_ProcNone",
     "IrVerif.Journal.C20_entries",
     "IrVerif.Journal.C20_entries_active",
-    "IrVerif.Journal.C20_no_strong_ref",
-    "IrVerif.Journal.C20_dropped_objects_die",
 ]
+# Not in THEOREMS on purpose: "entries keep no strong reference".  In the model `record` can only build
+# a weak handle and the other fields of an entry are not represented, so the corresponding lemma
+# (Lemmas/Journal.lean `block_allWeak`) holds by construction and claims nothing about /repo; that
+# clause of the property is established by the gc + weakref oracle and the field-type checks below only.
 ASSUMPTIONS = [
-    "DetailsOk: the wrappers' `details` expressions (repr of arguments, getattr(self, '_name')) do not raise, "
-    "and evaluating them does not change IR state: hypothesis of C20_transparent / C20_entries; checked on the "
-    "real details lambdas in a probing run of every generated history (that is how D70 was found), not proved",
+    "DetailsOk / DetailsPure: the wrappers' `details` expressions (repr of arguments, getattr(self, '_name')) do not "
+    "raise and have no effect on the IR or on one-shot iterable arguments: hypotheses of C20_transparent (DetailsOk also "
+    "of C20_entries); checked on the real details lambdas in a probing run of every generated history (that is how D70 "
+    "was found), with one-shot iterables for every operation that takes an iterable; not proved",
+    "ProcNone: instrumented constructors and property setters return None (checked on every traced call)",
     "no hooks registered on the journal (Journal.add_hook); a hook runs user code inside record()",
-    "instrumented constructors return None (checked on every traced call)",
+    "operations are invoked through the classes (attribute lookup at call time).  A bound method kept by user code "
+    "across the boundary of a `with journal:` block bypasses the class table: captured before and called inside it is "
+    "not recorded; captured inside and called after exit still records into the journal that was left.  Generated "
+    "(stream bound-method) and reported, checked only for transparency / restore / no strong reference",
+    "after exit the patched properties are NEW property objects with the original fget/fset/fdel/doc (restore_ir_classes "
+    "builds property(fget, fset)); `is`-identity of the property object itself is not restored and not claimed "
+    "(nothing in onnx_ir depends on it); identity of plain methods is restored and checked",
+    "no strong reference: oracle only (gc + weakref, types of the entry fields); the model does not represent "
+    "timestamp / class_ / stack_trace / details",
     "wrappers consume no recursion depth (a RecursionError could come earlier inside a journal)",
-    "CPython attribute lookup on classes, functools.wraps, property objects, weakref, gc: trusted",
+    "CPython attribute lookup on classes, functools.wraps, property objects, weakref, gc, sys.monitoring: trusted",
     "single thread: the class table and _current_journal are process-global",
 ]
 
 FUEL = 64
+FLOOR = 2  # the two deterministic coverage histories alone give every slot 2
 
 # --------------------------------------------------------------------------- the real code
 
@@ -104,6 +124,9 @@ class Real:
         from onnx_ir import _core, _graph_containers
         from onnx_ir.journaling import _journaling, _wrappers
 
+        import logging
+
+        logging.getLogger("onnx_ir").setLevel(logging.ERROR)  # (de)serialization warnings about odd graphs
         self.ir, self.core, self.gc_, self.J, self.W = ir, _core, _graph_containers, _journaling, _wrappers
         if _journaling.get_current_journal() is not None:
             raise RuntimeError("a journal is active at harness start")
@@ -126,6 +149,7 @@ class Real:
         # the classes whose attributes are patched, and the property objects' other parts
         self.classes = []
         self.props = {}
+        self.prop_objs = {}
         for key in self.KEYS:
             parts = key.split(".")
             cls = getattr(_core, parts[0], None) or getattr(_graph_containers, parts[0])
@@ -134,6 +158,7 @@ class Real:
             if parts[-1] == "fset":
                 p = cls.__dict__[parts[1]]
                 self.props[key] = (cls, parts[1], p.fget, p.fdel, p.__doc__)
+                self.prop_objs[key] = p
         self.class_dicts = [frozenset(vars(c)) for c in self.classes]
         self.ir_types = (
             _core.Value, _core.Node, _core.Graph, _core.Function, _core.Model, _core.Attr,
@@ -167,6 +192,10 @@ class Real:
 
     def decode_table(self, fns, journals: list) -> list:
         return [self.decode_impl(f, journals) for f in fns]
+
+    def property_objects_recreated(self) -> int:
+        """How many of the patched properties are not the very object they were at start (information)."""
+        return sum(1 for key, (cls, name, *_r) in self.props.items() if cls.__dict__.get(name) is not self.prop_objs[key])
 
     def pristine_problems(self) -> list[str]:
         """Everything that differs from the state captured at start (empty = restored)."""
@@ -224,7 +253,7 @@ def exc_code(name: str) -> int:
 class Tracer:
     """Independent observation of which original functions run (sys.monitoring on their code objects)."""
 
-    TOOL = 4
+    TOOL = None  # a free sys.monitoring tool id, chosen at first use
     _inst = None
 
     def __init__(self, R: Real):
@@ -237,6 +266,10 @@ class Tracer:
         self.init_nonnone = 0
         mon = sys.monitoring
         E = mon.events
+        free = [i for i in (4, 3, 5, 2, 1, 0) if mon.get_tool(i) is None]
+        if not free:
+            raise Infra("no free sys.monitoring tool id")
+        Tracer.TOOL = free[0]
         mon.use_tool_id(self.TOOL, "irverif-c20")
         mon.register_callback(self.TOOL, E.PY_START, self._start)
         mon.register_callback(self.TOOL, E.PY_RETURN, self._ret)
@@ -257,6 +290,9 @@ class Tracer:
         # probe mode: additionally evaluate, at the point where the wrapper would, the real `details`
         # expression of every call and note the calls (rank among the start events) where it raises
         self.probe, self.nstart, self.details_fail = probe, 0, []
+        # ... and the calls where evaluating it has an effect (consumes a one-shot iterable argument,
+        # runs a user repr with a side effect): EFFECTS[0] moves during the evaluation
+        self.details_effect: list = []
 
     def end(self) -> None:
         self.active = False
@@ -287,6 +323,7 @@ class Tracer:
         self.stack.append((k, i, rank, slf if self.probe else None))
         self.events.append(["start", k, i])
         if self.probe and SLOT_KIND[k] != "init" and (SLOT_DETAILS[k] is not None or SLOT_KIND[k] == "setter"):
+            before = EFFECTS[0]
             try:
                 if SLOT_KIND[k] == "setter":
                     loc = sys._getframe(1).f_locals
@@ -297,6 +334,8 @@ class Tracer:
                     SLOT_DETAILS[k](slf, *[loc[n] for n in code.co_varnames[1 : code.co_argcount]])
             except Exception:
                 self.details_fail.append(rank)
+            if EFFECTS[0] != before:
+                self.details_effect.append(rank)
 
     def _ret(self, code, _off, rv):
         if not self.active:
@@ -306,10 +345,13 @@ class Tracer:
             self.init_nonnone += 1
         self.events.append(["finish", k, i, {"ret": self.val(rv)}])
         if self.probe and SLOT_KIND[k] == "init" and SLOT_DETAILS[k] is not None:
+            before = EFFECTS[0]
             try:
                 SLOT_DETAILS[k](slf)
             except Exception:
                 self.details_fail.append(rank)
+            if EFFECTS[0] != before:
+                self.details_effect.append(rank)
 
     def _unwind(self, code, _off, exc):
         if not self.active or code not in self.R.code2slot:
@@ -358,12 +400,45 @@ class BadRepr:
         raise RuntimeError("repr of a user object fails")
 
 
+# moved by everything whose evaluation is an observable effect: taking an element from a OneShot
+# iterable, the repr of a SideRepr object
+EFFECTS = [0]
+
+
+class SideRepr:
+    """A user object whose repr has a side effect (leaves a mark in the trace)."""
+
+    def __repr__(self):
+        EFFECTS[0] += 1
+        tr = Tracer._inst
+        if tr is not None and tr.active:
+            tr.events.append(["mark"])
+        return "<side>"
+
+
+class OneShot:
+    """A one-shot iterable argument (like a generator); taking an element is counted."""
+
+    def __init__(self, items):
+        self._it = iter(list(items))
+
+    def __iter__(self):
+        return self
+
+    def __next__(self):
+        x = next(self._it)
+        EFFECTS[0] += 1
+        return x
+
+
 BAD = BadRepr()
 BAD_NAME = "<<bad-repr>>"
+SIDE = SideRepr()
+SIDE_NAME = "<<side-repr>>"
 
 
 def nm(x):
-    return BAD if x == BAD_NAME else x
+    return BAD if x == BAD_NAME else SIDE if x == SIDE_NAME else x
 
 
 class UserBoom(Exception):
@@ -375,6 +450,7 @@ class Env:
         self.R = R
         self.values, self.nodes, self.graphs, self.tensors = [], [], [], []
         self.attrs, self.functions, self.models = [], [], []
+        self.captured: dict = {}
         self._seen: set[int] = set()
 
     def add(self, lst: list, o) -> None:
@@ -408,6 +484,11 @@ class Env:
         return "<" + type(x).__name__ + ">"
 
 
+def it(op: dict, items: list):
+    """The iterable argument of an operation: a list, or (op["gen"]) a one-shot iterable."""
+    return OneShot(items) if op.get("gen") else items
+
+
 def exec_op(env: Env, op: dict):
     """Executes one public-API operation; returns its result (exceptions propagate)."""
     ir = env.R.ir
@@ -424,9 +505,47 @@ def exec_op(env: Env, op: dict):
     if o == "tensor":
         import numpy as np
 
-        t = ir.Tensor(np.array(op["data"], dtype=np.int64), name=op.get("name"))
+        kind, data, name = op.get("kind", "int64"), op["data"], op.get("name")
+        if kind == "int64":
+            t = ir.Tensor(np.array(data, dtype=np.int64), name=name)
+        elif kind == "string":
+            t = ir.StringTensor([str(x).encode() for x in data], shape=ir.Shape([len(data)]), name=name)
+        elif kind == "external":  # never read: the file does not exist
+            t = ir.ExternalTensor("c20-missing.bin", 0, 8 * len(data), ir.DataType.INT64, shape=ir.Shape([len(data)]),
+                                  name=name or "ext", base_dir="/nonexistent-c20")
+        elif kind == "lazy":
+            t = ir.LazyTensor(lambda: ir.Tensor(np.array(data, dtype=np.int64)), ir.DataType.INT64, ir.Shape([len(data)]), name=name)
+        elif kind == "packed":
+            t = ir.PackedTensor(np.array([x % 16 for x in data] or [0], dtype=np.uint8), ir.DataType.UINT4,
+                                shape=[2 * max(len(data), 1)], name=name)
+        else:  # a tensor backed by a TensorProto, as deserialization creates them
+            import onnx.numpy_helper
+
+            t = ir.serde.TensorProtoTensor(onnx.numpy_helper.from_array(np.array(data, dtype=np.int64), name or "p"))
         env.add(env.tensors, t)
         return None
+    if o == "pass":
+        import onnx_ir.passes.common as pc
+
+        m = env.models[op["m"]]
+        res = getattr(pc, op["name"])()(m)
+        for n in res.model.graph:
+            env.add_node(n)
+        return bool(res.modified)
+    if o == "serde":
+        g2 = ir.serde.deserialize_graph(ir.serde.serialize_graph(env.graphs[op["g"]]))
+        env.add(env.graphs, g2)
+        for v in list(g2.inputs) + list(g2.initializers.values()):
+            env.add(env.values, v)
+        for n in g2:
+            env.add_node(n)
+        return len(g2)
+    if o == "capture":  # a bound method object kept by the user code
+        env.captured[op["name"]] = getattr(env.graphs[op["g"]], op["meth"])
+        return None
+    if o == "call_captured":
+        f = env.captured[op["name"]]
+        return f(env.nodes[op["n"]]) if op.get("n") is not None else f()
     if o == "attr":
         k = op["kind"]
         if k == "int":
@@ -448,7 +567,7 @@ def exec_op(env: Env, op: dict):
         graph = None if gr is None else (env.functions[gr[1]] if isinstance(gr, list) else env.graphs[gr])
         outs = None if op.get("outputs") is None else env.vs(op["outputs"])
         n = ir.Node(
-            op.get("domain", ""), op["op_type"], env.vs(op["inputs"]),
+            op.get("domain", ""), op["op_type"], it(op, env.vs(op["inputs"])),
             [env.attrs[i] for i in op.get("attrs", [])],
             num_outputs=op.get("num_outputs"), outputs=outs, graph=graph,
             name=nm(op.get("name")), version=op.get("version"), overload=op.get("overload", ""),
@@ -457,7 +576,7 @@ def exec_op(env: Env, op: dict):
         return n
     if o == "graph":
         g = ir.Graph(
-            env.vs(op["inputs"]), env.vs(op["outputs"]), nodes=env.ns(op["nodes"]),
+            env.vs(op["inputs"]), env.vs(op["outputs"]), nodes=it(op, env.ns(op["nodes"])),
             initializers=env.vs(op.get("inits", [])), name=op.get("name"),
         )
         env.add(env.graphs, g)
@@ -477,18 +596,16 @@ def exec_op(env: Env, op: dict):
         if o == "g_append":
             return g.append(env.nodes[op["n"]])
         if o == "g_extend":
-            if op.get("gen"):
-                return g.extend(x for x in env.ns(op["ns"]))
-            return g.extend(env.ns(op["ns"]))
+            return g.extend(it(op, env.ns(op["ns"])))
         if o in ("g_insert_after", "g_insert_before"):
-            new = env.nodes[op["ns"][0]] if op.get("single") else env.ns(op["ns"])
+            new = env.nodes[op["ns"][0]] if op.get("single") else it(op, env.ns(op["ns"]))
             return getattr(g, o[2:])(env.nodes[op["a"]], new)
         if o == "g_remove":
-            arg = env.nodes[op["ns"][0]] if op.get("single") else env.ns(op["ns"])
+            arg = env.nodes[op["ns"][0]] if op.get("single") else it(op, env.ns(op["ns"]))
             return g.remove(arg, safe=op.get("safe", False))
         return g.sort()
     if o in ("n_prepend", "n_append"):
-        new = env.nodes[op["ns"][0]] if op.get("single") else env.ns(op["ns"])
+        new = env.nodes[op["ns"][0]] if op.get("single") else it(op, env.ns(op["ns"]))
         return getattr(env.nodes[op["n"]], o[2:])(new)
     if o == "n_replace_input":
         return env.nodes[op["n"]].replace_input_with(op["i"], env.v(op["v"]))
@@ -520,9 +637,7 @@ def exec_op(env: Env, op: dict):
         if m == "append":
             return lst.append(env.v(op["v"]))
         if m == "extend":
-            if op.get("gen"):
-                return lst.extend(x for x in env.vs(op["vs"]))
-            return lst.extend(env.vs(op["vs"]))
+            return lst.extend(it(op, env.vs(op["vs"])))
         if m == "insert":
             return lst.insert(op["i"], env.v(op["v"]))
         if m == "pop":
@@ -535,7 +650,7 @@ def exec_op(env: Env, op: dict):
             lst[op["i"]] = env.v(op["v"])
             return None
         if m == "setslice":
-            lst[op["lo"] : op["hi"]] = env.vs(op["vs"])
+            lst[op["lo"] : op["hi"]] = it(op, env.vs(op["vs"]))
             return None
         if m == "delitem":
             del lst[op["i"]]
@@ -678,12 +793,16 @@ def snapshot(env: Env) -> dict:
             "inits": [[k, V(x)] for k, x in g.initializers.items()], "nodes": [N(x) for x in g],
             "in_refs": sorted([str(V(x)), c] for x, c in g.inputs._ref_counter.items()),
             "out_refs": sorted([str(V(x)), c] for x, c in g.outputs._ref_counter.items()),
-            "names": [na._value_counter, na._node_counter, sorted(na._value_names), sorted(na._node_names)],
+            "names": [na._value_counter, na._node_counter, sorted(map(str, na._value_names)), sorted(map(str, na._node_names))],
         })
     for f in env.functions:
         out["functions"].append([f.domain, f.name, f.overload, G(f.graph), [A(a) for a in f.attributes.values()]])
     for t in env.tensors:
-        out["tensors"].append([t.name, t.tobytes().hex()])
+        try:
+            data = t.tobytes().hex() if type(t).__name__ not in ("ExternalTensor", "LazyTensor") else "<not read>"
+        except Exception as e:  # noqa: BLE001
+            data = "<" + type(e).__name__ + ">"
+        out["tensors"].append([type(t).__name__, t.name, data])
     for a in env.attrs:
         out["attrs"].append(A(a))
     out["models"] = [G(m.graph) for m in env.models]
@@ -694,6 +813,8 @@ def snapshot(env: Env) -> dict:
 
 NAMES = ["a", "b", "val_0", "val_1", "w", "node_Add_0", "", "x"]
 OPTYPES = ["Add", "Mul", "Relu", "Identity"]
+PASSES = ["TopologicalSortPass", "RemoveUnusedNodesPass", "NameFixPass", "IdentityEliminationPass",
+          "CommonSubexpressionEliminationPass", "ClearMetadataAndDocStringPass", "RemoveUnusedOpsetsPass"]
 
 
 class Gen:
@@ -745,12 +866,12 @@ class Gen:
             nodes = [i for i in fr if r.random() < 0.5][:3]
             if bad:
                 nodes = nodes + [self._any(e.nodes, True)]
-            return {"op": "graph", "inputs": ins, "outputs": outs, "nodes": nodes, "name": r.choice(["g", "h", None])}
+            return {"op": "graph", "inputs": ins, "outputs": outs, "nodes": nodes, "name": r.choice(["g", "h", None]), "gen": r.random() < 0.3}
         g = r.randrange(len(e.graphs))
         G = e.graphs[g]
         fam = r.choices(
             ["node", "glist", "nedit", "rauw", "io", "init", "setter", "attr", "ctor", "conv"],
-            [18, 18, 10, 8, 16, 10, 10, 6, 6, 3],
+            [18, 18, 10, 8, 16, 10, 10, 6, 7, 5],
         )[0]
         if fam == "node" or not e.nodes:
             op = {"op": "node", "op_type": r.choice(OPTYPES), "inputs": [self.pv(bad, none_ok=True) for _ in range(r.randint(0, 3))]}
@@ -768,6 +889,8 @@ class Gen:
                 op["attrs"] = [r.randrange(len(e.attrs)) for _ in range(r.randint(1, 2))]
             if r.random() < 0.1:
                 op["version"] = r.choice([1, 18])
+            if r.random() < 0.2:
+                op["gen"] = True
             return op
         if fam == "glist":
             fr, inside = self.free_nodes(), self.graph_nodes(G)
@@ -781,13 +904,15 @@ class Gen:
                 return {"op": kind, "g": g, "ns": ns, "gen": r.random() < 0.3}
             if kind == "g_remove":
                 ns = r.sample(inside, min(len(inside), r.randint(1, 2))) if inside and not bad else [self._any(e.nodes, bad)]
-                return {"op": kind, "g": g, "ns": ns, "single": len(ns) == 1 and r.random() < 0.6, "safe": r.random() < 0.5}
+                single = len(ns) == 1 and r.random() < 0.6
+                return {"op": kind, "g": g, "ns": ns, "single": single, "safe": r.random() < 0.5, "gen": not single and r.random() < 0.3}
             ns = r.sample(fr, min(len(fr), r.randint(1, 2))) if fr and not bad else [self._any(e.nodes, bad)]
             a = r.choice(inside) if inside and not bad else self._any(e.nodes, bad)
             single = len(ns) == 1 and r.random() < 0.5
+            gen = not single and r.random() < 0.3
             if kind in ("n_prepend", "n_append"):
-                return {"op": kind, "n": a, "ns": ns, "single": single}
-            return {"op": kind, "g": g, "a": a, "ns": ns, "single": single}
+                return {"op": kind, "n": a, "ns": ns, "single": single, "gen": gen}
+            return {"op": kind, "g": g, "a": a, "ns": ns, "single": single, "gen": gen}
         if fam == "nedit":
             n = self._any(e.nodes, bad)
             kind = r.choice(["n_replace_input", "n_replace_input", "n_resize_inputs", "n_resize_outputs"])
@@ -824,6 +949,7 @@ class Gen:
                 op["i"], op["v"] = (r.randrange(n) if n and not bad else r.randint(-1, n + 1)), pick()
             elif m == "setslice":
                 op["lo"], op["hi"], op["vs"] = r.randint(0, n), r.randint(0, n + 1), [pick() for _ in range(r.randint(0, 2))]
+                op["gen"] = r.random() < 0.3
             elif m == "delitem":
                 op["i"] = r.randrange(n) if n and not bad else r.randint(-1, n + 1)
             elif m == "delslice":
@@ -894,7 +1020,8 @@ class Gen:
         if fam == "ctor":
             k = r.choice(["tensor", "tensor", "function", "model", "attr"])
             if k == "tensor":
-                return {"op": "tensor", "data": [r.randint(0, 9) for _ in range(r.randint(0, 3))], "name": r.choice(NAMES + [None])}
+                return {"op": "tensor", "data": [r.randint(0, 9) for _ in range(r.randint(0, 3))], "name": r.choice(NAMES + [None]),
+                        "kind": r.choice(["int64", "int64", "int64", "string", "external", "lazy", "packed", "proto"])}
             if k == "function":
                 return {"op": "function", "domain": r.choice(["d", "ai.onnx"]), "name": r.choice(["f", "h"]), "g": g,
                         "attrs": [r.randrange(len(e.attrs))] if e.attrs and r.random() < 0.5 else []}
@@ -902,7 +1029,12 @@ class Gen:
                 return {"op": "model", "g": g, "fs": [r.randrange(len(e.functions))] if e.functions and r.random() < 0.5 else []}
             return {"op": "attr", "kind": "int", "name": r.choice(["k", "axis"]), "val": r.randint(0, 5)}
         # conv
-        if r.random() < 0.5:
+        x = r.random()
+        if x < 0.2 and e.models:
+            return {"op": "pass", "m": r.randrange(len(e.models)), "name": r.choice(PASSES)}
+        if x < 0.3:
+            return {"op": "serde", "g": g}
+        if x < 0.6:
             k = r.randint(1, 2)
             return {"op": "conv_rename", "vs": self.pvs(k, k, bad), "names": [r.choice(NAMES) for _ in range(k)]}
         inside, fr = self.graph_nodes(G), self.free_nodes()
@@ -971,6 +1103,7 @@ class Runner:
         self.restore_failures: list = []
         self.top_exc = None
         self.enter_refused = 0
+        self.messages: list = []
         # static (pre-order) number of every operation of the history
         self.seq_of: dict[int, int] = {}
 
@@ -995,6 +1128,7 @@ class Runner:
             self.owner = dict(self.tr.owner)
             self.init_nonnone = self.tr.init_nonnone
             self.details_fail = sorted(self.tr.details_fail)
+            self.details_effect = sorted(self.tr.details_effect)
             self.tr.end()
 
     def blocks(self, blocks: list) -> None:
@@ -1044,9 +1178,18 @@ class Runner:
         except Exception as e:
             self.slices[seq] = (start, len(self.tr.events))
             self.outcomes.append([seq, "raise", type(e).__name__])
+            self.messages.append([seq, mask_ids(str(e))])
             raise
         self.slices[seq] = (start, len(self.tr.events))
         self.outcomes.append([seq, "ret", self.env.canon(res)])
+
+
+_ID_RE = re.compile(r"anonymous\w*:\d+|0x[0-9a-fA-F]+|\bid=\d+")
+
+
+def mask_ids(msg: str) -> str:
+    """Exception text with object ids / addresses masked (they differ between two universes)."""
+    return _ID_RE.sub("#", msg)[:400]
 
 
 def count_ops(blocks: list) -> int:
@@ -1120,21 +1263,18 @@ def lean_blocks(blocks: list, plain: "Runner", counter: list) -> list:
 
 
 def expected_entries(events: list, owner: dict, j: int) -> list:
-    """The property's reading of 'one entry per instrumented operation', written independently of the
-    model: methods/setters when called, constructors when they return, while journal j is entered."""
+    """The property, written independently of the model: one entry per instrumented operation that
+    completed (returned) while journal j was entered, in order of completion; nothing for an
+    operation that raised."""
     act, res = False, []
     for ev in events:
         if ev[0] == "enter":
             act = True if ev[1] == j else act
         elif ev[0] == "exit":
             act = False if ev[1] == j else act
-        elif not act:
-            continue
-        elif ev[0] == "start" and SLOT_KIND[ev[1]] != "init":
+        elif act and ev[0] == "finish" and "ret" in ev[3]:
             tgt = owner.get(ev[2], ev[2]) if SLOT_KIND[ev[1]] == "container" else ev[2]
             res.append([SLOT_OP[ev[1]], tgt])
-        elif ev[0] == "finish" and SLOT_KIND[ev[1]] == "init" and "ret" in ev[3]:
-            res.append(["init", ev[2]])
     return res
 
 
@@ -1229,18 +1369,37 @@ def run_case(ctx, case: dict, stream: str) -> tuple:
             ctx.fail(f"{sig}/transparent-state", "IR state differs after the same history inside a journal", {"case": case, "differs": keys})
         if jr.enter_refused:
             ctx.fail(f"{sig}/enter-refused", "__enter__ of a journal that is not active was refused", {"case": case})
+        if plain.messages != jr.messages and plain.outcomes == jr.outcomes:
+            # (which of several rejected nodes Graph.remove reports first depends on the iteration
+            # order of a frozenset, i.e. on addresses: those messages are not compared)
+            unordered = {"conv_replace_nodes"}
+            for a, b in zip(plain.messages, jr.messages):
+                o = op_by_seq(case["blocks"], a[0])
+                if a != b and not (o["op"] in unordered or (o["op"] == "g_remove" and not o.get("single"))):
+                    ctx.fail(f"{sig}:{o['op']}/transparent-message", "exception text differs inside a journal",
+                             {"case": case, "plain": a, "journaled": b})
+                    break
     if plain.init_nonnone or jr.init_nonnone:
         ctx.fail(f"{sig}/init-returns-non-None", "an instrumented constructor returned a value", {"case": case})
     # ---------------- oracle: DetailsOk (the hypothesis of C20_transparent, on the real details lambdas)
+    # and DetailsPure: evaluating them takes nothing from a one-shot iterable argument and leaves the
+    # IR as it is (the probing run evaluates every details expression in an un-journaled run)
     pr = Runner(R, case, journaled=False, probe=True)
     pr.run()
+    starts = [e for e in pr.events if e[0] == "start"]
     if pr.details_fail:
-        starts = [e for e in pr.events if e[0] == "start"]
         keys = sorted({R.KEYS[starts[r][1]] for r in pr.details_fail})
         ctx.fail(f"{sig}/details-expression-raises:{','.join(keys)}",
                  "a wrapper's details expression raises on a state reached by the history (it would abort the call inside a journal)",
                  {"case": case, "calls": pr.details_fail[:5]})
-    del pr
+    if pr.details_effect:
+        keys = sorted({R.KEYS[starts[r][1]] for r in pr.details_effect})
+        ctx.fail(f"{sig}/details-expression-consumes-argument:{','.join(keys)}",
+                 "evaluating a wrapper's details expression takes elements from a one-shot iterable argument",
+                 {"case": case, "calls": pr.details_effect[:5]})
+    elif not pr.details_fail and snapshot(pr.env) != snap_plain:
+        ctx.fail(f"{sig}/details-expression-changes-state", "evaluating the details expressions changes the IR", {"case": case})
+    del pr, starts
     # ---------------- oracle: restore
     for f in jr.restore_failures:
         ctx.fail(f"{sig}/restore", f"class attributes not restored after leaving `with journal` ({f['n']} differ)", {"case": case, **f})
@@ -1253,15 +1412,30 @@ def run_case(ctx, case: dict, stream: str) -> tuple:
             o = e.ref() if e.ref is not None else None
             idx = jr.reg.ids.get(id(o), -1) if o is not None else -1
             ok_cls = o is not None and e.class_name == type(o).__name__ and e.class_ is type(o) and e.object_id == id(o)
-            real.append([e.operation, idx if ok_cls else -2])
+            # the fields the model does not represent hold no IR instance: a float, a class, strings,
+            # frame summaries without captured locals
+            ok_fields = (
+                isinstance(e.timestamp, float) and isinstance(e.class_, type) and isinstance(e.ref, weakref.ref)
+                and (e.details is None or type(e.details) is str)
+                and all(type(f).__name__ == "FrameSummary" and f.locals is None for f in e.stack_trace)
+            )
+            real.append([e.operation, idx if ok_cls and ok_fields else -2])
         exp = expected_entries(jr.events, jr.owner, j)
         if real != exp:
             ctx.fail(f"{sig}/entries", "journal entries are not exactly the instrumented calls executed while entered",
                      {"case": case, "journal": j, "real": real[:40], "expected": exp[:40]})
     # ---------------- correspondence with the model
+    # The script of what the originals do is the call tree observed in the UN-journaled run: the
+    # model's journaled outcomes / order / entries are then a prediction about the journaled run.
+    # (A history with a refused re-entry takes another path than its un-journaled twin; there the
+    # journaled run's own tree is used and only the wrapper / guard mechanics are compared.)
+    src = jr if reentry else plain
+    raw_p = forest([e for e in plain.events if e[0] in ("start", "finish")])
+    raw_j = forest([e for e in jr.events if e[0] in ("start", "finish")])
+    hash_order = (not reentry) and raw_p != raw_j and not opaque  # Graph.remove iterated its frozenset differently
     req = {"m": "journal.run", "fuel": FUEL, "nj": case["nj"],
-           "owner": sorted([a, b] for a, b in jr.owner.items()),
-           "block": lean_blocks(case["blocks"], jr, [0])}
+           "owner": sorted([a, b] for a, b in src.owner.items()),
+           "block": lean_blocks(case["blocks"], src, [0])}
     entries_real = []
     for journal in jr.journals:
         entries_real.append([[e.operation, jr.reg.ids.get(id(e.ref()), -1) if e.ref is not None else -1] for e in journal.entries])
@@ -1274,6 +1448,7 @@ def run_case(ctx, case: dict, stream: str) -> tuple:
         "left": left,
         "opaque": opaque,
         "reentry": reentry,
+        "hash_order": hash_order,
     }
     wrs = []
     for o in jr.reg.objs:
@@ -1283,7 +1458,7 @@ def run_case(ctx, case: dict, stream: str) -> tuple:
             pass
     journals = jr.journals
     n_entries = sum(len(j.entries) for j in journals)
-    del plain, jr, snap_plain, snap_j
+    del plain, jr, snap_plain, snap_j, src, raw_p, raw_j
     return req, impl, journals, wrs, n_entries, sig
 
 
@@ -1302,11 +1477,20 @@ def check_model(ctx, case: dict, req: dict, impl: dict, ans: dict, sig: str) -> 
     # the exception of a refused __enter__ is RuntimeError in the code, `enterExn` in the model
     m_log = [({"raise": exc_code("RuntimeError")} if o == {"raise": 2} else o) for o in mj["log"]]
     m_exc = exc_code("RuntimeError") if mj["exc"] == 2 else mj["exc"]
+    m_trace, r_trace, r_entries = mj["trace"], impl["trace"], impl["entries"]
+    if impl["hash_order"]:
+        # the two runs iterated a frozenset of nodes inside Graph.remove in different orders: compare
+        # the events and the entries as multisets
+        ctx.count("hash-order-case")
+        key = lambda x: json.dumps(x, sort_keys=True)  # noqa: E731
+        m_trace, r_trace = sorted(m_trace, key=key), sorted(r_trace, key=key)
+        m_entries, r_entries = [sorted(es, key=key) for es in m_entries], [sorted(es, key=key) for es in r_entries]
+        m_expected = [sorted(es, key=key) for es in m_expected]
     for what, a, b in (
         ("outcomes of the operations", m_log, impl["log"]),
         ("exception leaving the history", m_exc, impl["exc"]),
-        ("order of original functions / enter / exit", mj["trace"], impl["trace"]),
-        ("journal entries", m_entries, impl["entries"]),
+        ("order of original functions / enter / exit", m_trace, r_trace),
+        ("journal entries", m_entries, r_entries),
         ("active flags after the history", mj["active"], impl["active"]),
     ):
         if a != b:
@@ -1502,7 +1686,8 @@ def details_stream(ctx) -> None:
     evaluating the real details lambdas in a probing un-journaled run), must predict the real
     journaled run: which operation raises, which originals still run, which entries exist."""
     R = Real.get()
-    reqs, impls, cases = [], [], bad_repr_cases()
+    side = json.loads(json.dumps(bad_repr_cases()).replace(BAD_NAME, SIDE_NAME))  # repr with a side effect
+    reqs, impls, cases = [], [], bad_repr_cases() + side
     for case in cases:
         pr = Runner(R, case, journaled=False, probe=True)
         pr.run()
@@ -1515,16 +1700,25 @@ def details_stream(ctx) -> None:
         for f in jr.restore_failures:
             ctx.fail("bad-repr/restore", "class attributes not restored after leaving `with journal`", {"case": case, **f})
         reqs.append({"m": "journal.run", "fuel": FUEL, "nj": case["nj"], "owner": sorted([a, b] for a, b in pr.owner.items()),
-                     "block": lean_blocks(case["blocks"], pr, [0]), "details_fail": pr.details_fail})
+                     "block": lean_blocks(case["blocks"], pr, [0]), "details_fail": pr.details_fail,
+                     "details_effect": pr.details_effect})
+        seq, n = [], 0  # order of: original bodies starting (their rank) and side effects of details ("m")
+        for e in jr.events:
+            if e[0] == "start":
+                seq.append(n)
+                n += 1
+            elif e[0] == "mark" and seq[-1:] != ["m"]:
+                seq.append("m")  # (one evaluation may call the user repr several times: runs collapsed)
         impls.append({
             "log": [o[1] for o in jr.outcomes],
-            "trace": [[e[0], e[1]] + ([e[2], "raise" if "raise" in e[3] else "ret"] if e[0] == "finish" else e[2:]) for e in jr.events],
+            "trace": [[e[0], e[1]] + ([e[2], "raise" if "raise" in e[3] else "ret"] if e[0] == "finish" else e[2:]) for e in jr.events if e[0] != "mark"],
             "entries": [[[e.operation, jr.reg.ids.get(id(e.ref()), -1)] for e in j.entries] for j in jr.journals],
-            "nfail": len(pr.details_fail),
+            "ir": seq,
+            "nfail": len(pr.details_fail), "neffect": len(pr.details_effect),
         })
         del pr, jr
     for case, impl, ans in zip(cases, impls, lean_batch(reqs)):
-        ctx.case(["bad-repr", case], stream="bad-repr", details_fail=min(impl["nfail"], 3))
+        ctx.case(["odd-repr", case], stream="odd-repr", details_fail=min(impl["nfail"], 3), details_effect=min(impl["neffect"], 3))
         if "err" in ans:
             ctx.disagree("model driver error: " + str(ans["err"]), case, ans, None)
             continue
@@ -1533,12 +1727,105 @@ def details_stream(ctx) -> None:
             "log": ["raise" if "raise" in o else "ret" for o in mj["log"]],
             "trace": [[e[0], e[1]] + ([e[2], "raise" if "raise" in e[3] else "ret"] if e[0] == "finish" else e[2:]) for e in mj["trace"]],
             "entries": [[[e[1], e[2].get("weak")] for e in es] for es in mj["entries"]],
+            "ir": [],
         }
-        for what in ("log", "trace", "entries"):
+        for x in mj["ir"]:
+            if x < 100000:
+                m["ir"].append(x)
+            elif m["ir"][-1:] != ["m"]:
+                m["ir"].append("m")
+        for what in ("log", "trace", "entries", "ir"):
             if m[what] != impl[what]:
-                ctx.disagree(f"details raise, {what}: model != implementation", {"case": case}, m[what], impl[what])
-        if impl["nfail"] == 0:
-            ctx.disagree("bad-repr case in which no details expression raised (generator bug)", case, None, None)
+                ctx.disagree(f"details raise / have an effect, {what}: model != implementation", {"case": case}, m[what], impl[what])
+        if impl["nfail"] + impl["neffect"] == 0:
+            ctx.disagree("odd-repr case in which no details expression raised or had an effect (generator bug)", case, None, None)
+
+
+def coverage_case() -> dict:
+    """One deterministic history that calls every one of the 43 instrumented operations inside a
+    journal (coverage floor: checked in `run`)."""
+    def O(**kw):
+        return {"t": "try", "body": [{"t": "op", "op": kw}]}
+
+    ops = [
+        O(op="tensor", data=[1, 2], name="w"), O(op="tensor", data=[1], name="s", kind="string"),
+        O(op="tensor", data=[1], name="e", kind="external"), O(op="tensor", data=[3], name="p", kind="proto"),
+        O(op="value", name="x"), O(op="value", name="y"), O(op="value", name="w", const=0),      # v0 v1 v2
+        O(op="attr", kind="int", name="k", val=1),
+        O(op="graph", inputs=[0], outputs=[], nodes=[], name="g"),
+        O(op="node", op_type="Relu", inputs=[0], attrs=[0], graph=0),                              # n0 -> v3
+        O(op="node", op_type="Relu", inputs=[3]),                                                  # n1 -> v4
+        O(op="g_extend", g=0, ns=[1], gen=True),
+        O(op="node", op_type="Add", inputs=[]), O(op="g_insert_after", g=0, a=0, ns=[2]),          # n2 -> v5
+        O(op="node", op_type="Add", inputs=[]), O(op="g_insert_before", g=0, a=0, ns=[3]),         # n3 -> v6
+        O(op="node", op_type="Mul", inputs=[]), O(op="n_append", n=0, ns=[4], single=True),        # n4 -> v7
+        O(op="node", op_type="Mul", inputs=[]), O(op="n_prepend", n=0, ns=[5], single=True),       # n5 -> v8
+        O(op="g_remove", g=0, ns=[5], single=True), O(op="g_sort", g=0),
+        O(op="n_set", n=1, field="name", s="n1"), O(op="n_set", n=1, field="domain", s="d"),
+        O(op="n_set", n=1, field="version", s=18), O(op="n_set", n=1, field="op_type", s="Relu6"),
+        O(op="n_set", n=1, field="overload", s="o"),
+        O(op="n_resize_inputs", n=1, k=2), O(op="n_resize_outputs", n=1, k=2),
+        O(op="v_name", v=1, s="yy"), O(op="v_type", v=1, dtype=1), O(op="v_shape", v=1, shape=[1, 2]),
+        O(op="v_const", v=1, t=0), O(op="v_merge", v=1, shape=[1, 2]),
+        O(op="v_rauw", v=3, w=1),
+        O(op="init_register", g=0, v=2), O(op="init_del", g=0, key="w"),
+        O(op="io_append", g=0, which="outputs", v=4), O(op="io_extend", g=0, which="outputs", vs=[6], gen=True),
+        O(op="io_insert", g=0, which="outputs", i=0, v=7), O(op="io_setitem", g=0, which="outputs", i=0, v=5),
+        O(op="io_pop", g=0, which="outputs", i=None), O(op="io_remove", g=0, which="outputs", v=5),
+        O(op="io_clear", g=0, which="outputs"),
+        O(op="function", domain="d", name="f", g=0, attrs=[0]),
+        O(op="f_set", f=0, field="name", s="ff"), O(op="f_set", f=0, field="domain", s="dd"), O(op="f_set", f=0, field="overload", s="o"),
+        O(op="model", g=0, fs=[0]),
+        O(op="na_set", n=1, key="k", a=0),
+    ]
+    return {"nj": 2, "blocks": [{"t": "with", "j": 0, "body": [{"t": "with", "j": 1, "body": ops}]}]}
+
+
+def bound_method_stream(ctx) -> None:
+    """User code that keeps a bound method across the boundary of a `with journal:` block.  Such calls
+    do not go through the class attributes, so they are outside the model (see ASSUMPTIONS): a method
+    captured BEFORE the block and called inside it runs the original directly and is not recorded
+    (the calls it makes are); a method captured INSIDE and called after the block is the wrapper and
+    still records into the journal that was left.  Both are reported in the input distribution; what
+    is *checked* on these histories is everything else: same results and IR as without a journal,
+    classes restored, no strong reference."""
+    R = Real.get()
+    setup = [{"t": "op", "op": {"op": "value", "name": "x"}},
+             {"t": "op", "op": {"op": "graph", "inputs": [0], "outputs": [], "nodes": [], "name": "g"}},
+             {"t": "op", "op": {"op": "node", "op_type": "Relu", "inputs": [0]}},
+             {"t": "op", "op": {"op": "node", "op_type": "Relu", "inputs": [0]}},
+             {"t": "op", "op": {"op": "node", "op_type": "Relu", "inputs": [0]}}]
+    before = {"nj": 2, "blocks": [{"t": "try", "body": setup + [
+        {"t": "op", "op": {"op": "capture", "name": "c", "g": 0, "meth": "append"}},
+        {"t": "with", "j": 0, "body": [{"t": "op", "op": {"op": "call_captured", "name": "c", "n": 0}},
+                                        {"t": "op", "op": {"op": "g_append", "g": 0, "n": 1}}]}]}]}
+    after = {"nj": 2, "blocks": [{"t": "try", "body": setup + [
+        {"t": "with", "j": 0, "body": [{"t": "op", "op": {"op": "capture", "name": "c", "g": 0, "meth": "append"}}]},
+        {"t": "op", "op": {"op": "call_captured", "name": "c", "n": 0}},
+        {"t": "with", "j": 1, "body": [{"t": "op", "op": {"op": "call_captured", "name": "c", "n": 1}}]}]}]}
+    for label, case in (("captured-before", before), ("captured-inside", after)):
+        plain = Runner(R, case, journaled=False)
+        plain.run()
+        jr = Runner(R, case, journaled=True)
+        jr.run()
+        left = R.pristine_problems()
+        if left:
+            R.repair()
+            ctx.fail(f"bound-method:{label}/restore-final", "classes not as before", {"case": case, "left": left[:6]})
+        for f in jr.restore_failures:
+            ctx.fail(f"bound-method:{label}/restore", "class attributes not restored after leaving `with journal`", {"case": case, **f})
+        if plain.outcomes != jr.outcomes or snapshot(plain.env) != snapshot(jr.env):
+            ctx.fail(f"bound-method:{label}/transparent", "results or IR differ inside a journal", {"case": case})
+        ops0 = [e.operation for e in jr.journals[0].entries]
+        ctx.case(["bound-method", label], stream="bound-method", sample={"stream": "bound-method", "form": label, "journal0": ops0})
+        if label == "captured-before":
+            ctx.count(f"bound-method:captured-before:call-recorded={ops0.count('append') == 2}")
+        else:
+            ctx.count(f"bound-method:captured-inside:stale-wrapper-records-after-exit={ops0.count('append') > 0}")
+        wrs = [weakref.ref(o) for o in jr.reg.objs if type(o).__module__.startswith("onnx_ir")]
+        journals = jr.journals
+        del plain, jr
+        gc_check(ctx, case, journals, wrs, sum(len(j.entries) for j in journals), f"bound-method:{label}")
 
 
 def process_cases(ctx, cases: list, stream: str, chunk: int = 40) -> None:
@@ -1616,7 +1903,11 @@ def run(ctx: Ctx) -> None:
     ctl_stream(ctx, list(all_ctl_sequences(3, 3)), 3, "ctl-exhaustive")
     ctx.exhaustive_scopes.append("all __enter__/__exit__ sequences of length <= 3 over 3 journal objects")
     process_cases(ctx, skeleton_cases(), "skeleton")
+    cov = coverage_case()
+    cov1 = {"nj": 1, "blocks": [{"t": "try", "body": [{"t": "with", "j": 0, "body": cov["blocks"][0]["body"][0]["body"] + [{"t": "op", "op": {"op": "raise"}}]}]}]}
+    process_cases(ctx, [cov, cov1], "coverage")
     details_stream(ctx)
+    bound_method_stream(ctx)
     ctx.exhaustive_scopes.append("nesting depth 0-3 x exception thrown at no level / each level x thrown by user code / by a rejected IR operation")
     # random histories, sharded
     shards = 16
@@ -1627,6 +1918,12 @@ def run(ctx: Ctx) -> None:
     if R.pristine_problems():
         ctx.fail("final/restore", "classes not pristine at the end of the run", {"left": R.pristine_problems()})
         R.repair()
+    # coverage floor: every instrumented operation ran inside a journal at least FLOOR times
+    low = {k: ctx.dist.get("slot=" + k, 0) for k in R.KEYS if ctx.dist.get("slot=" + k, 0) < FLOOR}
+    ctx.extra["slot_coverage_floor"] = FLOOR
+    ctx.extra["property_objects_recreated_by_restore"] = f"{R.property_objects_recreated()} of {len(R.props)} (fget/fset/fdel/doc identical; see assumptions)"
+    if low:
+        raise Infra(f"coverage floor not met (each of the 43 slots must run >= {FLOOR} times inside a journal): {low}")
 
 
 def replay(ctx: Ctx, obj: dict) -> None:
